@@ -265,7 +265,11 @@ class PyExec:
             if a.arg not in args:
                 raise PyNotSupported("contract of %s gives no value for parameter %s" % (qual, a.arg))
             st.env[a.arg] = args[a.arg]
+        self.free_names = {k: v for k, v in args.items() if k not in st.env}
+        st.env.update(self.free_names)
         self.cur = qual
+        if hasattr(contract, 'init_state'):
+            contract.init_state(st)
         outs = self.exec_block(fn.body, st)
         res = []
         for o in outs:
@@ -371,6 +375,8 @@ class PyExec:
                     v = Exc(v.cls, v.attrs.get('args'))
                 if isinstance(v, type) and issubclass(v, BaseException):
                     v = Exc(v.__name__)
+                if isinstance(v, tuple) and v and v[0] == '$excclass':
+                    v = Exc(v[1])                      # `raise SomeError` without arguments
                 if not isinstance(v, Exc):
                     raise PyNotSupported("raise of %r" % (v,))
                 outs.append(Outcome(s, 'raise', v))
